@@ -210,31 +210,14 @@ def oracle(ctx, n_struct):
 
 
 def run(ctx):
-    rep = TK.regenerate(GEN_FILES, seed=ctx.seed)
-    failed = [f for f, r in rep.items() if not r['ok']]
-    for f in failed:
-        ctx.broken.append('trace translator failed closed on %s: %s' % (f, '; '.join(rep[f]['errors'])[:300]))
-    ctx.obligations += len(GEN_FILES)
-    ctx.discharged += len(GEN_FILES) - len(failed)
-    common.check_obligations(ctx, THEOREMS)
-    if not failed and ctx.notes.get('build_ok'):
-        n, bad = TK.printer_validation(ctx, rep)
-        ctx.obligations += 1
-        if bad:
-            ctx.broken.append('translator printer validation failed for kernels %s' % bad)
-        else:
-            ctx.discharged += 1
-        ctx.notes.setdefault('coverage_extra', {})['translator'] = {
-            'kernels': {f: sorted(r['kernels']) for f, r in rep.items()}, 'printer_cases_exact_Q': n}
+    TK.stage(ctx, GEN_FILES, THEOREMS)
     evals = oracle(ctx, 1500 if ctx.thorough() else 150)
     ctx.cov['evaluations'] = evals
     ctx.cov['distinct_nontrivial'] = evals
     ctx.cov['rule'] = ('random cells of all seven crystal systems (non-degenerate: D > 0.1), atoms with random coordinates, '
                        'isotropic or anisotropic U of prescribed definiteness (margin from singular); each atom / pair is one evaluation '
                        'of the public API against the metric-tensor reference (relative tolerance 1e-8); all random, hence distinct')
-    ctx.assumptions += ['real-number semantics of + - * / sqrt cos sin (rounding not modelled)',
-                        'trace translator harness/trace.py (validated each run: DAG vs source in floats, printer vs DAG in exact Q)',
-                        'is_npd: convergence of the QR iteration is not proved; PD-congruence of U and U(cart) is (C12_pd_congruence); '
+    ctx.assumptions += ['is_npd: convergence of the QR iteration is not proved; PD-congruence of U and U(cart) is (C12_pd_congruence); '
                         'the decision itself is checked by correspondence against the Sylvester criterion']
 
 
